@@ -8,6 +8,8 @@ import (
 	"go/types"
 	"math/big"
 	"strings"
+
+	"golang.org/x/tools/go/ssa"
 )
 
 type cvKind int
@@ -224,6 +226,15 @@ func (e *Env) ident(name string) CV {
 		if obj := e.pkg.Scope().Lookup(name); obj != nil {
 			if c, ok := obj.(*types.Const); ok {
 				return e.constCV(c)
+			}
+			if v, ok := obj.(*types.Var); ok {
+				// package-level variable: its value in the current state
+				if sp := e.fx.eng.prog.Package(e.pkg); sp != nil {
+					if g, ok := sp.Members[v.Name()].(*ssa.Global); ok {
+						p := e.fx.globalPtr(g)
+						return e.deref(p)
+					}
+				}
 			}
 		}
 	}
@@ -710,6 +721,28 @@ func (e *Env) call(x *ECall) CV {
 			v = *c.ghostInit
 		}
 		return cvOf(v)
+	case "post":
+		// post(r, e): e evaluated in the post-state of lemma call r
+		id, ok := x.Args[0].(*EIdent)
+		if !ok || fx.lemmaStates == nil || fx.lemmaStates[id.Name] == nil {
+			unsupp("contract: post(call-result, expr) outside a lemma with calls")
+		}
+		ne := *e
+		ne.st = fx.lemmaStates[id.Name]
+		return ne.eval(x.Args[1])
+	case "with":
+		// with(structValue, "Field", value): functional update
+		a := arg(0)
+		fs, ok := x.Args[1].(*EStr)
+		if !ok || a.k != cvVal || a.v.sh.kind != KStruct {
+			unsupp("contract: with(struct, \"Field\", value)")
+		}
+		for i, n := range a.v.sh.fnames {
+			if n == fs.V {
+				return cvOf(a.v.withField(i, e.toVal(arg(2), a.v.sh.fields[i])))
+			}
+		}
+		unsupp("contract: with: no field %s", fs.V)
 	case "zero":
 		s, ok := x.Args[0].(*EStr)
 		if !ok {
